@@ -2,7 +2,7 @@
    default; a wrapped callback runs after the default effect succeeded. *)
 From Coq Require Import String List Bool Arith.
 From Verif Require Import Base.ListX Base.Json Base.Free Pub.Events Pub.Calls Pub.Value Pub.EffectSpec Pub.Util Pub.SideEffect Pub.Fed Pub.Monitors.
-From Verif Require Import Proofs.OnlyProofs Proofs.OrderProofs Proofs.DeliveryProofs Proofs.ForwardIffProofs Proofs.TargetProofs Proofs.StoreProofs Proofs.EffectProofs Proofs.FedProofs.
+From Verif Require Import Proofs.OnlyProofs Proofs.OrderProofs Proofs.DeliveryProofs Proofs.ForwardIffProofs Proofs.TargetProofs Proofs.StoreProofs Proofs.FollowProofs Proofs.EffectProofs Proofs.FedProofs.
 Import ListNotations.
 Open Scope string_scope.
 Open Scope list_scope.
@@ -145,6 +145,48 @@ Proof.
   exists id, objs. repeat split; assumption.
 Qed.
 
+(* ---- a Follow, for EVERY environment.  Not for this inbox's actor, or the application chose to do nothing: nothing is stored
+   and nothing sent, whether or not the callback succeeds.  Auto-accept: exactly the followers collection rewritten with every
+   following actor in front (new_followers; C04_followers says what its ids are) and ONE hand-over of an Accept of that Follow
+   from the actor, addressed to those actors, under the id NewID gave, stripped of hidden recipients.  Auto-reject: only that
+   one hand-over, of a Reject; followers are not touched. ---- *)
+Theorem C04_follow_not_me_nothing : forall env cfg inbox a,
+  (c_on_follow cfg = 0 \/ exists actor, env (EDb "ActorForInbox" [JStr inbox]) = AIri actor
+                                      /\ names_me "object" actor (elems0 "object" a) = Ok false) ->
+  S env (follow cfg inbox a) = [].
+Proof. exact follow_not_me_nothing_any. Qed.
+Theorem C04_follow_accept_effects : forall env cfg inbox a actor,
+  c_on_follow cfg = 1 ->
+  env (EDb "ActorForInbox" [JStr inbox]) = AIri actor ->
+  names_me "object" actor (elems0 "object" a) = Ok true ->
+  res_env env (follow cfg inbox a) = Ok tt ->
+  exists al recipients followers newid rs,
+    elems "actor" a = Some al /\ to_ids "actor" al = Ok recipients
+    /\ env (EDb "Followers" [JStr actor]) = AJson followers
+    /\ env (EDb "NewID" [canon (response_activity "Accept" actor a recipients)]) = AIri newid
+    /\ ids_of "to" (response_activity "Accept" actor a recipients) = Ok recipients
+    /\ S env (follow cfg inbox a) =
+         [EDb "Update" [canon (new_followers recipients followers)];
+          EBatchDeliver (canon (streams_serialize (strip_hidden (jset "id" (JStr newid) (response_activity "Accept" actor a recipients))))) rs].
+Proof. exact follow_accept_complete. Qed.
+Theorem C04_follow_reject_effects : forall env cfg inbox a actor,
+  c_on_follow cfg = 2 ->
+  env (EDb "ActorForInbox" [JStr inbox]) = AIri actor ->
+  names_me "object" actor (elems0 "object" a) = Ok true ->
+  res_env env (follow cfg inbox a) = Ok tt ->
+  exists al recipients newid rs,
+    elems "actor" a = Some al /\ to_ids "actor" al = Ok recipients
+    /\ env (EDb "NewID" [canon (response_activity "Reject" actor a recipients)]) = AIri newid
+    /\ ids_of "to" (response_activity "Reject" actor a recipients) = Ok recipients
+    /\ S env (follow cfg inbox a) =
+         [EBatchDeliver (canon (streams_serialize (strip_hidden (jset "id" (JStr newid) (response_activity "Reject" actor a recipients))))) rs].
+Proof. exact follow_reject_complete. Qed.
+Theorem C04_response_shape : forall k actor a r,
+  jget "type" (response_activity k actor a r) = Some (JStr k) /\
+  jget "actor" (response_activity k actor a r) = Some (JStr actor) /\
+  jget "object" (response_activity k actor a r) = Some a.
+Proof. intros k actor a r. split; [apply response_type|split; [apply response_actor|apply response_object]]. Qed.
+
 Print Assumptions C04_factor.
 Print Assumptions C04_wrapped_after_effect.
 Print Assumptions C04_like_owned_only.
@@ -164,3 +206,7 @@ Print Assumptions C04_update_stores_exactly_named.
 Print Assumptions C04_delete_removes_exactly_named.
 Print Assumptions C04_like_every_owned_object.
 Print Assumptions C04_announce_every_owned_object.
+Print Assumptions C04_follow_not_me_nothing.
+Print Assumptions C04_follow_accept_effects.
+Print Assumptions C04_follow_reject_effects.
+Print Assumptions C04_response_shape.
